@@ -764,6 +764,13 @@ __trans_dfmt_special(const char *fmt)
 	size_t len = strlen(fmt);
 	const struct dt_fmt_special_s *res;
 
+	/* the table of names is built for 7-bit characters only,
+	 * its hash looks at the first four */
+	for (size_t i = 0U; i < len && i < 4U; i++) {
+		if (UNLIKELY((unsigned char)fmt[i] >= 0x80U)) {
+			return DT_DUNK;
+		}
+	}
 	if (UNLIKELY((res = __fmt_special(fmt, len)) != NULL)) {
 		return res->e;
 	}
